@@ -32,11 +32,11 @@ func runC18(c *Ctx) {
 	p := c.Progs["mod"]
 	c.Rule("C18.L", "liveness gate", 11)
 	c.Rule("C18.F", "shared fallback only when the user has no match", 3)
-	c.Rule("C18.N", "lookup by the user's e-mail and the request path; 404 when it fails", 3)
+	c.Rule("C18.N", "lookup by the user's e-mail and the request path; 404 when it fails; stored backend entities stay loadable", 6)
 	c.Rule("C18.S", "shape of the most-specific-prefix selection", 9)
 	ruleBackendDefinitionsVerbatim(c, p, "C18.S")
 	ruleBackendQueriesUnbounded(c, p, "C18.S")
-	c.Rule("C18.C", "no cache or memo in front of the routing decision", 2)
+	c.Rule("C18.C", "no cache or memo in front of the routing decision, nor in front of the polls that keep a backend live", 3)
 	const sp = ModPath + "/app/store"
 	hb := "(*" + sp + ".persistentStore).hasBackend"
 	ms := sp + ".mostSpecificMatchingBackend"
@@ -283,6 +283,7 @@ func runC18(c *Ctx) {
 	}
 
 	// ---- C18.N
+	ruleStoredEntityLoadable(c, p, "C18.N", "app/types.Backend", "app/store.backendTracker", "app/store.activityTracker")
 	if f := c.need(p, "C18.N", "app.proxyHandler"); f != nil {
 		if lb := c.UniqueCall("C18.N", p, f, false, storeIface+".LookupBackend"); lb != nil {
 			var ifi *ssa.If
@@ -501,7 +502,7 @@ func runC18(c *Ctx) {
 		sub := NewCtx("tmp", c.Progs)
 		c17Sibling(sub, p, "C17.S")
 		for _, o := range sub.Obs {
-			if strings.HasSuffix(o.Key, "cachingStore.LookupBackend") || strings.HasSuffix(o.Key, "cachingStore:stateless") {
+			if strings.HasSuffix(o.Key, "cachingStore.LookupBackend") || strings.HasSuffix(o.Key, "cachingStore:stateless") || strings.HasSuffix(o.Key, "cachingStore.ListPendingRequests") {
 				o.Rule = "C18.C"
 				o.Key = "C18.C|" + strings.SplitN(o.Key, "|", 2)[1]
 				c.Obs = append(c.Obs, o)
